@@ -37,6 +37,8 @@ type Config struct {
 	Bounds       map[string]int
 	StrParams    map[string]string
 	BitLenExtra  []int // additional exact anchors for the big.Int BitLen model
+	RecordInputs bool            // keep the names of the input symbols each path read
+	AutoUF       bool            // callees without body or model become uninterpreted pure functions (sweep)
 	UF0          map[string]bool // functions replaced by an arbitrary constant result per path (their argument does not change during the run)
 	UF           map[string]bool // functions replaced by uninterpreted pure functions of their arguments (stub by contract)
 	LazyFeas     bool  // do not ask the solver at forks: both sides are explored, feasibility is decided at assertions and at the end of a path
@@ -56,6 +58,7 @@ type symInfo struct {
 }
 
 type AssertFail struct {
+	Note   string // the recovered panic, if any, on the failing path
 	Msg    string
 	Result string // "sat", "unknown", "concrete"
 	Model  map[string]string
@@ -90,6 +93,8 @@ type PathRec struct {
 	PCModel   map[string]string
 	NondetSeq []NondetRec
 	Sampled   bool
+	InputSyms []string // names of the input symbols the path read (lazily declared on first read)
+	LocksHeld int      // locks still held when the path ended
 }
 
 type Result struct {
@@ -110,6 +115,7 @@ type Result struct {
 	Truncated      bool
 	SolverRestarts int
 	Unsupported    map[string]int
+	ForkSites      map[string]int
 }
 
 type deferred struct {
@@ -407,6 +413,9 @@ func (e *Exec) branch(c *BoolV) bool {
 	}
 	switch {
 	case tOK && fOK:
+		if e.res != nil {
+			e.res.ForkSites[e.curSite]++
+		}
 		alt := append(append([]bool{}, e.script...), false)
 		e.work = append(e.work, alt)
 		e.script = append(e.script, true)
@@ -559,12 +568,23 @@ func (e *Exec) store(p *PtrV, nv Value, site string) {
 	if e.mergeDepth > 0 && p.O.Born <= e.mergeEpoch {
 		panic(mergeAbort{"store to a pre-existing object"})
 	}
-	if e.monitorOn && p.O.Born <= e.monitorEpoch && !isGhostTag(p.O.Tag) {
+	if e.monitorOn && e.initMode == 0 && p.O.Born <= e.monitorEpoch && !isGhostTag(p.O.Tag) {
 		fn := ""
 		if e.curFn != nil {
 			fn = e.curFn.String()
 		}
-		e.writes = append(e.writes, WriteRec{Tag: p.O.Tag + "|" + p.O.Name, Site: site, Fn: fn})
+		tag := p.O.Tag + "|" + p.O.Name
+		if p.O.T != nil && len(p.Path) > 0 {
+			if st, ok := p.O.T.Underlying().(*types.Struct); ok && p.Path[0] < st.NumFields() {
+				f := st.Field(p.Path[0])
+				if f.Exported() {
+					tag += "|field:" + f.Name()
+				} else {
+					tag += "|unexported:" + f.Name()
+				}
+			}
+		}
+		e.writes = append(e.writes, WriteRec{Tag: tag, Site: site, Fn: fn})
 	}
 	e.storeRaw(p, nv)
 }
@@ -733,6 +753,11 @@ func (e *Exec) call(fn *ssa.Function, args []Value, bind []Value) Value {
 			return v
 		}
 	}
+	if e.initMode == 0 && fn.Pkg != nil && fn.Pkg.Pkg.Path() == "net" && forbiddenNetFunc(fn.Name()) {
+		e.effects = append(e.effects, "forbidden:"+name)
+		e.stub("env:" + name)
+		return e.ufCall(name, args, fn.Signature.Results())
+	}
 	if len(fn.Blocks) == 0 {
 		if fn.Synthetic != "" && strings.Contains(fn.Synthetic, "wrapper") {
 			e.unsupported("no body for wrapper: %s", name)
@@ -740,6 +765,14 @@ func (e *Exec) call(fn *ssa.Function, args []Value, bind []Value) Value {
 		e.unsupported("no body: %s", name)
 	}
 	if !e.execFromSource(fn) {
+		if e.cfg.AutoUF && e.initMode == 0 {
+			// any callee outside the executed set without a model: an uninterpreted pure function of its arguments
+			e.stub("auto-uf:" + name)
+			if fn.Pkg != nil && forbiddenEffectPkg(fn.Pkg.Pkg.Path()) {
+				e.effects = append(e.effects, "forbidden:"+name)
+			}
+			return e.ufCall(name, args, fn.Signature.Results())
+		}
 		e.unsupported("no stub: %s", name)
 	}
 	e.depth++
@@ -1086,7 +1119,7 @@ func (e *Exec) tagReachable(v Value, tag string, seen map[interface{}]bool) {
 }
 
 func newResult(name string) *Result {
-	return &Result{Func: name, Ends: map[string]int{}, Covers: map[string]int{}, Stubs: map[string]int{}, FuncsRun: map[string]int{}, UnwindCuts: map[string]int{}, Unsupported: map[string]int{}}
+	return &Result{Func: name, Ends: map[string]int{}, Covers: map[string]int{}, Stubs: map[string]int{}, FuncsRun: map[string]int{}, UnwindCuts: map[string]int{}, Unsupported: map[string]int{}, ForkSites: map[string]int{}}
 }
 
 // Run explores all paths of fn (a niladic harness function).
@@ -1176,6 +1209,16 @@ func (e *Exec) RunWith(fn *ssa.Function, mkArgs func(e *Exec) []Value) *Result {
 			rec.NondetSeq = e.nondetWithModel(rec.PCModel)
 		}
 		e.send("(pop 1)")
+		if e.cfg.RecordInputs {
+			for _, sy := range e.syms {
+				rec.InputSyms = append(rec.InputSyms, sy.Name)
+			}
+		}
+		for _, d := range e.lockDepth {
+			if d > 0 {
+				rec.LocksHeld += d
+			}
+		}
 		rec.Covers = e.covers
 		rec.Stubs = e.stubs
 		rec.Writes = e.writes
@@ -1273,3 +1316,22 @@ func isGhostTag(tag string) bool {
 }
 
 var noShortcut = os.Getenv("SYMGO_NOSHORTCUT") != ""
+
+// forbiddenEffectPkg: packages through which a lint would reach the network,
+// the file system, processes or the environment (C05).
+func forbiddenEffectPkg(p string) bool {
+	switch p {
+	case "os", "os/exec", "os/signal", "os/user", "syscall", "net/http", "io/ioutil", "plugin", "net/rpc", "net/smtp", "log/syslog", "io/fs":
+		return true
+	}
+	return false
+}
+
+func forbiddenNetFunc(n string) bool {
+	for _, p := range []string{"Dial", "Lookup", "Listen", "Resolve", "Interface", "FileConn", "FileListener", "Pipe"} {
+		if strings.HasPrefix(n, p) {
+			return true
+		}
+	}
+	return false
+}
